@@ -30,6 +30,10 @@ struct hx_harness {
   /* few, heavy configurations: every worker explores every configuration but only the subtrees whose first deviation
    * sits at a choice point i with i % nshards == shard (the default execution is accounted by shard 0) */
   int split_dfs;
+  /* free-running validation: the default schedule of every validate_free_stride-th configuration is executed once more with real blocking
+   * calls, the real clock and an autonomous helper; the observation logs must agree (0 = off). The harness may veto a
+   * configuration by leaving S->free_run_ok at 0. */
+  int validate_free_stride;
 };
 
 extern int hx_tier;
@@ -53,7 +57,8 @@ int hx_write(reproc_t *p, const uint8_t *buf, size_t n);
 int hx_close(reproc_t *p, REPROC_STREAM s);
 int hx_poll(reproc_event_source *src, size_t n, int timeout);
 reproc_t *hx_destroy(reproc_t *p);
-extern int hx_last_api; /* sequence number of the API call that just returned */
+extern int hx_last_api;
+extern int hx_time_scale; /* positive timeouts handed to the library are multiplied by this (free runs use real milliseconds); logs show nominal values */ /* sequence number of the API call that just returned */
 
 const char *const *hx_helper_argv(void);
 void hx_forked_side(reproc_t *p, int r) __attribute__((noreturn)); /* { <scratch>/bin/vchild, NULL } */
